@@ -35,9 +35,16 @@ def key(i):
     return _KEYS[i]
 
 
+ROTATED = (7, 6)      # the transferable ('D') identifier of key 7 has been rotated: the receiver's keep holds key 6 for it
+
+
 def keep(n=4):
+    """the receiver's keep: keys 0..n-1 under their own vids ('B' for even, 'D' for odd), plus the rotated identifier: vid of key 7 -> key 6.
+    Keys 4 and 5 are strangers (5 has a 'D' vid the keep does not know)."""
     from hio.core.memo import Keyage
-    return {key(i)["vid"]: Keyage(qvk=key(i)["qvk"], qss=key(i)["qss"]) for i in range(n)}
+    k = {key(i)["vid"]: Keyage(qvk=key(i)["qvk"], qss=key(i)["qss"]) for i in range(n)}
+    k[key(ROTATED[0])["vid"]] = Keyage(qvk=key(ROTATED[1])["qvk"], qss=key(ROTATED[1])["qss"])
+    return k
 
 
 def mid_of(seed):
@@ -148,16 +155,15 @@ def errno_of(name):
     return getattr(errno, name)
 
 
-def make_tm():
-    """the instrumented subclass (built lazily so that importing this module does not import hio)"""
-    from hio.core.memo import memoing
+def instrument(base):
+    """subclass of a Memoer class with deterministic mids, scripted send() and recorded sign / verify calls"""
 
-    class TM(memoing.Memoer):
+    class TM(base):
         def __init__(self, *, mids=(), script=(), **kw):
             self._mids = list(mids)
             self._script = list(script)
             self.sendlog = []       # (dst, bytes offered, outcome)
-            self.signlog = []       # (vid text, ser bytes, sig bytes as returned)
+            self.signlog = []       # (vid text, ser bytes, sig bytes as returned | ("err", class name))
             self.verlog = []        # (vid bytes, sig bytes, ser bytes, outcome)
             super().__init__(**kw)
 
@@ -182,8 +188,13 @@ def make_tm():
             raise OSError(errno_of(step[1]), "scripted " + step[1])
 
         def sign(self, vid, ser):
-            sig = super().sign(vid, ser)
-            self.signlog.append((vid if isinstance(vid, str) else bytes(vid).decode(), bytes(ser) if not isinstance(ser, str) else ser.encode(), bytes(sig)))
+            rec = (vid if isinstance(vid, str) else bytes(vid).decode(), bytes(ser) if not isinstance(ser, str) else ser.encode())
+            try:
+                sig = super().sign(vid, ser)
+            except BaseException as ex:
+                self.signlog.append(rec + (("err", type(ex).__name__),))
+                raise
+            self.signlog.append(rec + (bytes(sig),))
             return sig
 
         def verify(self, vid, sig, ser):
@@ -198,6 +209,17 @@ def make_tm():
             return r
 
     return TM
+
+
+def make_tm(kind="memoer"):
+    """the instrumented subclass (built lazily so that importing this module does not import hio); kind: memoer | auth (AuthMemoer)"""
+    from hio.core.memo import memoing
+    return instrument(memoing.AuthMemoer if kind == "auth" else memoing.Memoer)
+
+
+def exn_name(ex):
+    """class of an exception that left the code under test, as the observation names it"""
+    return "OSError" if isinstance(ex, OSError) else type(ex).__name__
 
 
 # --------------------------------------------------------------------------
@@ -216,6 +238,51 @@ def _vtab(verlog):
     return [(v, s, m, o) for (v, s, m), o in seen.items()]
 
 
+def _refdec(q, codes, hz, qz):
+    """('ok', raw, code) | ('err', class name) for one piece of qualified Base64 material given as bytes"""
+    import binascii
+    try:
+        raw, code = _dec(bytes(q).decode(), codes, hz, qz)
+        return ("ok", raw, ord(code[0]) if code else 0)
+    except _Bad:
+        return ("err", "MemoerError")
+    except UnicodeDecodeError:
+        return ("err", "UnicodeDecodeError")
+    except binascii.Error:
+        return ("err", "Error")
+
+
+def _vparts(verlog):
+    """the third-party parts of Memoer.verify for the model, computed independently of the code under test (stdlib base64 + pysodium):
+    the receiver's keep, and for every (vid, sig, ser) the real run asked about: the decoded vid, the decoded keep key, the decoded
+    signature, and the ed25519 verdict under every key that could be meant (the one embedded in the vid, the one the keep holds)"""
+    kp = _kp()
+    dvid, dqvk, dsgn, chk = {}, {}, {}, {}
+    for vid, sig, ser, _real in verlog:
+        dv = dvid.setdefault(vid, _refdec(vid, ("B", "D", "E"), 1, 44))
+        ds = dsgn.setdefault(sig, _refdec(sig, ("0B",), 2, 88))
+        keys = [dv[1]] if dv[0] == "ok" else []
+        try:
+            q = kp.get(bytes(vid).decode())
+        except UnicodeDecodeError:
+            q = None
+        if q:
+            dq = dqvk.setdefault(q[0].encode(), _refdec(q[0].encode(), ("B",), 1, 44))
+            if dq[0] == "ok":
+                keys.append(dq[1])
+        if ds[0] == "ok":
+            for k in keys:
+                if (k, ds[1], ser) not in chk:
+                    try:
+                        pysodium.crypto_sign_verify_detached(ds[1], ser, k)
+                        chk[(k, ds[1], ser)] = True
+                    except Exception:
+                        chk[(k, ds[1], ser)] = False
+    dec = lambda d, withcode: tuple((k, (("ok", v[1], v[2]) if withcode else ("ok", v[1])) if v[0] == "ok" else ("err", v[1])) for k, v in d.items())
+    return (("keep",) + tuple((v.encode(), q[0].encode()) for v, q in kp.items()), ("dvid",) + dec(dvid, True), ("dqvk",) + dec(dqvk, False),
+            ("dsgn",) + dec(dsgn, False), ("chk",) + tuple((k, s, m, b) for (k, s, m), b in chk.items()))
+
+
 def _entries(r):
     out = []
     for mid, grams in r.rxgs.items():
@@ -225,78 +292,259 @@ def _entries(r):
     return tuple(out)
 
 
-def run_rx_batches(r, batches):
-    """feed batches through the echo transport, one serviceAllRx() per batch"""
-    res = []
+def norm_ops(batches):
+    """receive history as a list of ops: ("all", batch) serviceAllRx | ("svc", batch) service() | ("once", batch) serviceAllRxOnce |
+    ("rxg", batch) serviceReceives + serviceRxGrams | "close" | "reopen".
+    A bare list is ("all", list)."""
+    out = []
     for b in batches:
+        if isinstance(b, str):
+            out.append(b)
+        elif isinstance(b, tuple) and b and isinstance(b[0], str):
+            out.append((b[0], list(b[1])))
+        else:
+            out.append(("all", list(b)))
+    return out
+
+
+class RxSock:
+    """scripted receiving socket for the real Peer.receive: recvfrom pops the next datagram, would-block when nothing is queued"""
+
+    def __init__(self):
+        self.queue = []
+
+    def recvfrom(self, bs):
+        if not self.queue:
+            raise BlockingIOError(errno.EAGAIN, "nothing queued")
+        return self.queue.pop(0)
+
+    def sendto(self, data, dst):
+        return len(data)
+
+
+def run_rx_ops(r, ops, feed=None, pending=None):
+    """feed the ops through the transport (echo queue, or the fake socket under a real Peer), observing after every service call:
+    memos that reached the inbox, entries, datagrams still queued, fused memos still in .rxms"""
+    feed = feed or (lambda g, s: r.echos.append((bytes(g), f"s{s}")))
+    pending = pending or (lambda: len(r.echos))
+    res = []
+    for op in norm_ops(ops):
+        if op == "close":
+            r.opened = False          # Memoer.close(); a Peer's close would also drop the socket, the queue below is ours
+            continue
+        if op == "reopen":
+            r.opened = True
+            continue
+        kind, b = op
         for g, s in b:
-            r.echos.append((bytes(g), f"s{s}"))
+            feed(g, s)
         try:
-            r.serviceAllRx()
-        except Exception as ex:   # an exception escaping the service call is an observation, not an adapter failure
-            res.append(("escape", type(ex).__name__))
+            if kind == "once":
+                r.serviceAllRxOnce()
+            elif kind == "rxg":          # the two lower tiers only: fused memos stay in .rxms
+                r.serviceReceives()
+                r.serviceRxGrams()
+            elif kind == "svc":
+                r.service()
+            else:
+                r.serviceAllRx()
+        except BaseException as ex:   # whatever leaves the service call is an observation, never an adapter failure
+            res.append(("escape", exn_name(ex)))
             break
-        dl = tuple((m.encode(), int(s[1:]), v.encode() if v is not None else None) for m, s, v in r.inbox)
-        r.inbox.clear()
-        res.append((("delivered",) + dl, ("entries",) + _entries(r), ("queue", len(r.echos))))
+        try:
+            dl = tuple((m.encode(), int(s[1:]), v.encode() if v is not None else None) for m, s, v in r.inbox)
+            r.inbox.clear()
+            res.append((("delivered",) + dl, ("entries",) + _entries(r), ("queue", pending()), ("pending", len(r.rxms))))
+        except BaseException as ex:   # state the adapter cannot render is itself an observation
+            res.append(("unreadable-state", type(ex).__name__))
+            break
     return res
 
 
-def run_rx(authic, batches):
-    TM = make_tm()
-    r = TM(echoic=True, authic=authic, keep=keep())
+def make_receiver(authic, flavor="memoer"):
+    """flavor: memoer | auth (AuthMemoer; only meaningful with authic) | udp | uxd (real PeerMemoer.receive over a scripted socket)"""
+    if flavor in ("udp", "uxd"):
+        import importlib
+        PM = instrument(importlib.import_module(f"hio.core.{flavor}.peermemoing").PeerMemoer)
+        r = PM(name="r", authic=authic, keep=keep())
+        r.ls = RxSock()
+        r.opened = True
+        return r, (lambda g, s: r.ls.queue.append((bytes(g), f"s{s}"))), (lambda: len(r.ls.queue))
+    TM = make_tm("auth" if flavor == "auth" and authic else "memoer")
+    r = TM(echoic=True, authic=authic, keep=keep()) if not (flavor == "auth" and authic) else TM(echoic=True, keep=keep())
     r.reopen()
-    res = run_rx_batches(r, batches)
-    return res, _vtab(r.verlog)
+    return r, None, None
 
 
-def run_e2e(code, curt, size, authic, ki, memos, sched, hist=()):
-    """constructor (code, curt, size), then the history of property assignments, then rend of every memo, then scheduled delivery"""
+def run_rx(authic, ops, flavor="memoer"):
+    # a neighbour instance that holds state of its own: nothing of it may leak into (or out of) the receiver under test
+    decoy, _f, _p = make_receiver(False)
+    decoy.echos.append((ref_gram("bAAA", False, mid_of(424242), 3, b"decoy"), "s9"))
+    decoy.serviceAllRx()
+    before = (_entries(decoy), len(decoy.inbox))
+    r, feed, pend = make_receiver(authic, flavor)
+    res = run_rx_ops(r, ops, feed, pend)
+    if (_entries(decoy), len(decoy.inbox)) != before or any(e[0] == mid_of(424242).encode() for o in res if o[0] not in ("escape", "unreadable-state") for e in o[1][1:]):
+        res.append(("neighbour-instance-disturbed",))
+    return res, _vparts(r.verlog)
+
+
+def run_e2e(code, curt, size, authic, ki, memos, sched, hist=(), txpath="rend"):
+    """constructor (code, curt, size); the history of property assignments (a refused one is survived); every memo — after its own
+    assignments, if any — goes through rend directly, or through memoit + serviceTxMemos / serviceTxMemosOnce + serviceTxGrams; then the
+    scheduled delivery on a receiver"""
     TM = make_tm()
     vid = key(ki)["vid"] if ki is not None else None
+    allmids = [mid_of(m[1]) for m in memos]
     try:
-        s = TM(code=code, curt=curt, size=size, keep=keep(), vid=vid, mids=[mid_of(m[1]) for m in memos])
-        for what, val in hist:
-            setattr(s, what, val)          # .code / .curt / .size property setters
-    except Exception as ex:
-        return [("cfg-raise", type(ex).__name__)], [], [], None
+        s = TM(code=code, curt=curt, size=size, keep=keep(), vid=vid, echoic=True)
+    except BaseException as ex:
+        return [("cfg-raise", exn_name(ex))], [], _vparts([]), None
+    s.reopen()
+
+    def assign(pairs):
+        for what, val in pairs:
+            try:
+                setattr(s, what, val)          # .code / .curt / .size property setters
+            except BaseException:
+                pass                            # refused (raises before storing anything): the application carries on
+    assign(hist)
     rends = []
-    for text, _ms, _src in memos:
-        try:
-            gs = s.rend(bytes(text).decode(), vid)
-            rends.append(("grams",) + tuple(bytes(g) for g in gs))
-        except Exception as ex:
-            s._mids[:] = s._mids   # makeMID may or may not have been consumed; keep alignment by explicit ids below
-            rends.append(("raise", type(ex).__name__))
-        # keep mid alignment: memo i always uses mid i
-        s._mids = [mid_of(m[1]) for m in memos][len(rends):]
-    batches = []
-    for b in sched:
+    plain = not any(len(m) > 3 and m[3] for m in memos)
+    if txpath != "rend" and plain and memos:
+        # the queued way in: every memo is handed to memoit first, with its signer id given explicitly (the peer's own default is another one)
+        s.vid = key((ki + 1) % 4)["vid"] if ki is not None else None
+        s._mids = list(allmids)
+        for m in memos:
+            s.memoit(bytes(m[0]).decode(), f"s{m[2]}", vid)
+        got = {}
+        fails = {}
+        guard = 0
+        while s.txms and guard < 4 * len(memos) + 4:
+            guard += 1
+            head = len(memos) - len(s.txms)
+            try:
+                if txpath == "once":
+                    s.serviceTxMemosOnce()
+                else:
+                    s.serviceTxMemos()
+            except BaseException as ex:
+                fails[len(memos) - len(s.txms) - 1] = exn_name(ex)       # the memo that was popped last is the one rend refused
+            s.serviceTxGrams(echoic=True)
+            if txpath == "once":          # exactly one memo per call: everything that came out belongs to the memo that was at the head
+                got.setdefault(head, []).extend(bytes(g) for g, _d in s.echos)
+                s.echos.clear()
+        for g, _d in s.echos:
+            p_ = ref_parse(g)
+            mi = allmids.index(p_["mid"]) if p_ and p_["mid"] in allmids else len(memos)
+            got.setdefault(mi, []).append(bytes(g))
+        s.echos.clear()
+        for i in range(len(memos)):
+            rends.append(("raise", fails[i]) if i in fails else ("grams",) + tuple(got.get(i, ())))
+        if len(memos) in got:
+            rends.append(("grams",) + tuple(got[len(memos)]))      # grams that belong to no memo: the observation keeps them
+    else:
+        txq = txpath if plain else "rend"
+        for i, m in enumerate(memos):
+            assign(m[3] if len(m) > 3 else ())
+            s._mids = [allmids[i]]
+            text = bytes(m[0]).decode()
+            try:
+                if txq == "rend":
+                    gs = s.rend(text, vid)
+                else:
+                    s.memoit(text, f"s{m[2]}", vid)
+                    s.serviceTxMemos()
+                    s.serviceTxGrams(echoic=True)
+                    gs = [g for g, _d in s.echos]
+                    s.echos.clear()
+                rends.append(("grams",) + tuple(bytes(g) for g in gs))
+            except BaseException as ex:
+                s.txms.clear()
+                s.txgs.clear()
+                s.echos.clear()
+                rends.append(("raise", exn_name(ex)))
+    ops = []
+    for op in norm_ops(sched):
+        if isinstance(op, str):
+            ops.append(op)
+            continue
         bb = []
-        for item in b:
+        for item in op[1]:
             mi, gi = item[0], item[1]
             if mi < len(rends) and rends[mi][0] == "grams" and len(rends[mi]) > 1:
                 gs = rends[mi][1:]
                 bb.append((gs[gi % len(gs)], item[2] if len(item) > 2 else memos[mi][2]))
-        batches.append(bb)
-    r = TM(echoic=True, authic=authic, keep=keep())
-    r.reopen()
-    res = run_rx_batches(r, batches)
+        ops.append((op[0], bb))
+    r, feed, pend = make_receiver(authic)
+    res = run_rx_ops(r, ops, feed, pend)
     stab = []
     seen = set()
     for v, ser, sig in s.signlog:
         if (v, ser) not in seen:
             seen.add((v, ser))
             stab.append((v.encode(), ser, sig))
-    return [("cfg", s.code.encode(), bool(s.curt), s.size), ("rend",) + tuple(rends), ("rx",) + tuple(res)], stab, _vtab(r.verlog), s.size
+    return [("cfg", s.code.encode(), bool(s.curt), s.size), ("rend",) + tuple(rends), ("rx",) + tuple(res)], stab, _vparts(r.verlog), s.size
 
 
-def run_tx(grams, script, calls):
-    TM = make_tm()
-    t = TM(script=[tuple(x) for x in script])
-    t.reopen()
-    for g, d in grams:
-        t.gramit(bytes(g), f"d{d}")
+EXOTIC = {   # OSError subclasses a socket really raises, with the errno the model sees (0 = none that any table knows)
+    "BlockingIOError": ("EAGAIN", lambda e: BlockingIOError(e, "would block")),
+    "ConnectionRefusedError": ("ECONNREFUSED", lambda e: ConnectionRefusedError(e, "refused")),
+    "ConnectionResetError": ("ECONNRESET", lambda e: ConnectionResetError(e, "reset")),
+    "TimeoutError": ("ETIMEDOUT", lambda e: TimeoutError(e, "timed out")),
+    "timeout": (None, lambda e: TimeoutError("timed out")),            # socket.timeout: args[0] is a string, no errno
+    "gaierror": (None, lambda e: __import__("socket").gaierror(-2, "Name or service not known")),
+}
+
+
+def sock_errno(step):
+    """errno number the model is told for a script step ("e", NAME) / ("x", KIND); 0 when the exception carries none"""
+    if step[0] == "e":
+        return errno_of(step[1])
+    name = EXOTIC[step[1]][0]
+    return errno_of(name) if name else 0
+
+
+class FakeSock:
+    """scripted socket: sendto returns a count or raises OSError(errno) / one of the OSError subclasses; an exhausted script accepts everything"""
+
+    def __init__(self, script, log):
+        self.script = list(script)
+        self.log = log
+
+    def sendto(self, data, dst):
+        offered = bytes(data)
+        step = self.script.pop(0) if self.script else ("a", len(offered))
+        if step[0] == "a":
+            n = min(step[1], len(offered))
+            self.log.append((dst, offered, ("a", n)))
+            return n
+        self.log.append((dst, offered, ("e", sock_errno(step))))
+        if step[0] == "x":
+            name, mk = EXOTIC[step[1]]
+            raise mk(errno_of(name) if name else None)
+        raise OSError(errno_of(step[1]), "scripted " + step[1])
+
+
+def run_tx(grams, script, calls, peer=None):
+    """peer=None: Memoer with a scripted send(); peer='udp'|'uxd': the real PeerMemoer (real Peer.send) over a scripted socket.
+    calls: "g" serviceTxGrams | "o" serviceTxGramsOnce | "a" serviceAllTx | "c" close | "r" reopen | ("q", gram, dst) gramit"""
+    if peer is None:
+        TM = make_tm()
+        t = TM(script=[tuple(x) for x in script])
+        t.reopen()
+        decoy = TM()
+    else:
+        import importlib
+        PM = importlib.import_module(f"hio.core.{peer}.peermemoing").PeerMemoer
+        t = PM(name="t")
+        t.sendlog = []
+        t.ls = FakeSock([tuple(x) for x in script], t.sendlog)
+        t.opened = True
+        decoy = PM(name="decoy")
+    decoy.gramit(b"decoy-gram", "d9")        # a neighbour instance with a queued gram of its own: must stay as it is
+    for i, (g, d) in enumerate(grams):
+        t.gramit(bytearray(g) if i % 2 else bytes(g), f"d{d}")      # both forms the API accepts
     res = []
 
     def state():
@@ -306,24 +554,40 @@ def run_tx(grams, script, calls):
     def evs(k):
         out = []
         for dst, offered, r in t.sendlog[k:]:
-            out.append((int(dst[1:]), offered, ("e", errno_of(r[1])) if r[0] == "e" else r))
+            out.append((int(dst[1:]), offered, ("e", errno_of(r[1]) if isinstance(r[1], str) else r[1]) if r[0] == "e" else r))
         return tuple(out)
     for c in calls:
         if isinstance(c, (tuple, list)):
             t.gramit(bytes(c[1]), f"d{c[2]}")
             continue
+        if c == "c":
+            t.opened = False
+            continue
+        if c == "r":
+            t.opened = True
+            continue
         k = len(t.sendlog)
         try:
             if c == "g":
                 t.serviceTxGrams()
+            elif c == "a":
+                t.serviceAllTx()
             else:
                 t.serviceTxGramsOnce()
-        except Exception as ex:
+        except BaseException as ex:
             res.append(("call",) + evs(k))
-            res.append(("escape", "OSError" if isinstance(ex, OSError) else type(ex).__name__, state()))
+            try:
+                res.append(("escape", exn_name(ex), state()))
+            except BaseException as ex2:
+                res.append(("escape", exn_name(ex), ("unreadable-state", type(ex2).__name__)))
             return res
         res.append(("call",) + evs(k))
-    res.append(("final", state()))
+    try:
+        res.append(("final", state()))
+    except BaseException as ex:
+        res.append(("unreadable-state", type(ex).__name__))
+    if list(decoy.txgs) != [(b"decoy-gram", "d9")] or decoy.txbs[1] is not None:
+        res.append(("neighbour-instance-disturbed",))
     return res
 
 
